@@ -5,6 +5,7 @@ package vld
 
 import (
 	"sort"
+	"strings"
 
 	"github.com/ccbrown/api-fu/graphql/schema"
 	"github.com/ccbrown/api-fu/graphql/schema/introspection"
@@ -70,7 +71,7 @@ func fieldsSexp(m map[string]*schema.FieldDefinition) sexp.Node {
 
 type encoder struct {
 	// name -> "int" | "float" | "string" | "boolean" | "id": scalars that are renamed copies of a
-	// built-in (same LiteralCoercion)
+	// built-in (same LiteralCoercion); "custom:<kind>": a scalar accepting literals of one kind
 	scalarKinds map[string]string
 }
 
@@ -88,6 +89,10 @@ func (e *encoder) scalarSexp(t *schema.ScalarType) sexp.Node {
 		return sexp.Sym("id")
 	}
 	if k, ok := e.scalarKinds[t.Name]; ok {
+		if strings.HasPrefix(k, "custom:") {
+			// LiteralCoercion accepts (at most) literals of this kind
+			return sexp.T("custom", sexp.Sym(strings.TrimPrefix(k, "custom:")))
+		}
 		return sexp.Sym(k)
 	}
 	panic("unknown scalar " + t.Name)
